@@ -155,6 +155,8 @@ JudgeMelt(Sx, e) ==
                    THEN {<<"C05", "melt-reply:" \o e.r.st \o "/" \o e.r.pre>>} ELSE {}
   IN J(VerdictTags(e.r.ok, e.r.panic, c, FALSE, InputsAcceptProp(Sx, e.a.ins)) \cup feeTags \cup replyTags, allowed)
 
+Asked(ln, q) == \E i \in DOMAIN ln : ln[i].name = "OutgoingPaymentStatus" /\ ln[i].q = q
+
 JudgePollMelt(Sx, e) ==
   LET known == e.a.q \in DOMAIN Sx.lq
       allowed == IF known THEN PollOutcomes(Sx, e.a.q, e.a.ln) ELSE {Sx}
@@ -162,7 +164,11 @@ JudgePollMelt(Sx, e) ==
       replyTags == IF e.r.ok /\ known
                       /\ ~\E S2 \in allowed : S2.lq[e.a.q].st = e.r.st /\ S2.lq[e.a.q].pre = e.r.pre
                    THEN {<<"C05", "poll-reply:" \o e.r.st \o "/" \o e.r.pre>>} ELSE {}
-  IN J(VerdictTags(e.r.ok, e.r.panic, c, FALSE, "C05") \cup replyTags, allowed)
+      \* "the next state poll adopts it": a poll of a PENDING quote has to ask the backend (sequential histories: no melt request is
+      \* working on the quote; the tag begins with poll-reply so that the acceptance search, where one may be, ignores it)
+      askTags == IF e.r.ok /\ known /\ Sx.lq[e.a.q].st = "PENDING" /\ ~Asked(e.a.ln, e.a.q)
+                 THEN {<<"C05", "poll-reply-without-asking-the-backend">>} ELSE {}
+  IN J(VerdictTags(e.r.ok, e.r.panic, c, FALSE, "C05") \cup replyTags \cup askTags, allowed)
 
 \* a state check first resolves every pending melt it touches
 RECURSIVE ResolveAll(_, _, _)
@@ -178,7 +184,9 @@ JudgeCheckState(Sx, e) ==
       dontcare == Len(ys) = 0
       replyTags == IF e.r.ok /\ ~\E S2 \in allowed : StateCheckTruth(S2, ys, e.r.states)
                    THEN {<<"C15", "statecheck-reply">>} ELSE {}
-  IN J(VerdictTags(e.r.ok, e.r.panic, {}, dontcare, "C15") \cup replyTags, allowed)
+      askTags == IF e.r.ok /\ \E q \in qs : q \in DOMAIN Sx.lq /\ Sx.lq[q].st = "PENDING" /\ ~Asked(e.a.ln, q)
+                 THEN {<<"C05", "poll-reply-statecheck-without-asking-the-backend">>} ELSE {}
+  IN J(VerdictTags(e.r.ok, e.r.panic, {}, dontcare, "C15") \cup replyTags \cup askTags, allowed)
 
 JudgeRestore(Sx, e) ==
   J(VerdictTags(e.r.ok, e.r.panic, {}, Len(e.a.bs) = 0, "C15")
